@@ -1052,4 +1052,183 @@ theorem normEntries_idem : ∀ kvs : Entries, JsonShapedEntries kvs = true →
       rw [norm_idem v h.1, normEntries_idem rest h.2]
 end
 
+/-! ### `Map.Json` then `NewMapJson` -/
+
+/-- a whole string literal (opening quote … closing quote, nothing after it) -/
+def unquote (t : Str) : Option Str :=
+  match t with
+  | '"' :: r => match strBody (r.length + 1) r [] with
+    | some (s, []) => some s
+    | _ => none
+  | _ => none
+
+theorem unquote_quote (html : Bool) (s : Str) : unquote (quote html s) = some s := by
+  have h := quote_append html s []
+  rw [List.append_nil] at h
+  rw [h, unquote]
+  rw [strBody_flatMap html s _ [] [] (by
+    have := length_le_flatMap_quoteChar html s
+    simp only [List.length_append, List.length_cons]; omega)]
+  simp
+
+/-- the text `NewMapJson` decodes when the input starts with '[' -/
+def wrapObj (s : Str) : Str := "{\"object\":".toList ++ s ++ ['}']
+
+theorem newMapJson_eq (s : Str) (hs : s ≠ []) :
+    newMapJson s =
+      (match firstValue (if (skipWs s).head? = some '[' then wrapObj s else s) with
+        | some (.map m) => some (.map m)
+        | some .null => some .null
+        | _ => none) := by
+  cases s with
+  | nil => exact absurd rfl hs
+  | cons c tl => rfl
+
+theorem newMapJson_mapJson (safe : Bool) (m : Entries) (hm : JsonShaped (.map m) = true) :
+    newMapJson (mapJson safe (.map m)) = some (Val.norm (.map m)) := by
+  have hn := jsonShaped_norm _ hm
+  have hf := firstValue_encN safe _ hn [] (fun _ _ => rfl)
+  rw [List.append_nil] at hf
+  unfold mapJson
+  simp only [Val.norm] at hf ⊢
+  have he : encN safe (Val.map (sortByKey (Val.normEntries m)))
+      = '{' :: (encEntries safe (sortByKey (Val.normEntries m)) ++ ['}']) := by simp [encN]
+  rw [he] at hf ⊢
+  rw [newMapJson_eq _ (by simp), skipWs_cons_of _ _ (by decide)]
+  simp only [List.head?_cons, Option.some.injEq]
+  rw [if_neg (by decide), hf]
+
+theorem encN_single (html : Bool) (k : Str) (v : Val) :
+    encN html (.map [(k, v)]) = '{' :: (quote html k ++ ':' :: (encN html v ++ ['}'])) := by
+  simp [encN, encEntries]
+
+/-- the key of the array wrapper, as an explicit character list -/
+def objKey : Str := ['o', 'b', 'j', 'e', 'c', 't']
+theorem objKey_eq : "object".toList = objKey := by decide
+theorem quote_objKey (html : Bool) : quote html objKey = '"' :: (objKey ++ ['"']) := by
+  cases html <;> decide
+
+theorem wrapObj_eq (html : Bool) (s : Str) :
+    wrapObj s = '{' :: (quote html objKey ++ ':' :: (s ++ ['}'])) := by
+  rw [quote_objKey]
+  rfl
+
+theorem newMapJson_array (html : Bool) (xs : List Val) (hx : JsonShaped (.list xs) = true) :
+    newMapJson (encN html (.list xs)) = some (.map [(objKey, .list xs)]) := by
+  have hv : JsonShaped (.map [(objKey, .list xs)]) = true := by
+    simp only [JsonShaped] at hx
+    simp [JsonShaped, JsonShapedEntries, distinctKeys, hx]
+  have hf := firstValue_encN html _ hv [] (fun _ _ => rfl)
+  rw [List.append_nil, encN_single, ← wrapObj_eq] at hf
+  have h1 : encN html (.list xs) = '[' :: (encList html xs ++ [']']) := by simp [encN]
+  rw [h1] at hf ⊢
+  rw [newMapJson_eq _ (by simp), skipWs_cons_of _ _ (by decide)]
+  simp only [List.head?_cons, if_true, hf]
+
+theorem keys_insert_prefix (k : Str) (v : Val) : ∀ acc : Entries, keys acc <+: keys (insert k v acc)
+  | [] => List.nil_prefix
+  | (k', v') :: rest => by
+      simp only [insert]
+      split
+      · next h => subst h; simp [keys]
+      · simp only [keys, List.map_cons]
+        exact (List.prefix_cons_inj _).2 (keys_insert_prefix k v rest)
+
+/-- `members` returns a map, and the entries already collected keep their positions -/
+theorem members_isMap : ∀ (f : Nat) (s : Str) (acc : Entries) (v : Val) (r : Str),
+    members f s acc = some (v, r) → ∃ m, v = .map m ∧ keys acc <+: keys m := by
+  intro f
+  induction f with
+  | zero => intro s acc v r h; simp [members] at h
+  | succ f ih =>
+    intro s acc v r h
+    rw [members] at h
+    split at h
+    · split at h
+      · cases h
+      · split at h
+        · split at h
+          · cases h
+          · split at h
+            · obtain ⟨m, hm, hp⟩ := ih _ _ _ _ h
+              exact ⟨m, hm, (keys_insert_prefix _ _ acc).trans hp⟩
+            · simp only [Option.some.injEq, Prod.mk.injEq] at h
+              exact ⟨_, h.1.symm, keys_insert_prefix _ _ acc⟩
+            · cases h
+        · cases h
+    · cases h
+
+theorem value_brace_isMap (f : Nat) (r : Str) (v : Val) (r' : Str)
+    (h : value f ('{' :: r) = some (v, r')) : ∃ m, v = .map m := by
+  cases f with
+  | zero => simp [value] at h
+  | succ f =>
+    rw [value_brace] at h
+    split at h
+    · simp only [Option.some.injEq, Prod.mk.injEq] at h; exact ⟨[], h.1.symm⟩
+    · obtain ⟨m, hm, _⟩ := members_isMap _ _ _ _ _ h
+      exact ⟨m, hm⟩
+
+theorem value_brace_quoted (f : Nat) (html : Bool) (k rest : Str) :
+    value (f + 1) ('{' :: (quote html k ++ rest)) = members f (quote html k ++ rest) [] := by
+  rw [quote_append]; exact value_brace_quote f _
+
+theorem firstValue_eq_some (s : Str) (v : Val) (h : firstValue s = some v) :
+    ∃ r, value (s.length + 1) s = some (v, r) := by
+  unfold firstValue at h
+  cases hv : value (s.length + 1) s with
+  | none => simp [hv] at h
+  | some p =>
+    obtain ⟨v', r⟩ := p
+    simp only [hv, Option.map_some, Option.some.injEq] at h
+    exact ⟨r, by rw [← h]⟩
+
+/-- what the array wrapper can produce: a map whose first key is "object" -/
+theorem wrapObj_shape (s : Str) (m : Entries) (h : firstValue (wrapObj s) = some (.map m)) :
+    ∃ v m', m = (objKey, v) :: m' := by
+  obtain ⟨r, hv⟩ := firstValue_eq_some _ _ h
+  rw [wrapObj_eq false s, value_brace_quoted] at hv
+  generalize (('{' :: (quote false objKey ++ ':' :: (s ++ ['}']))).length) = n at hv
+  cases n with
+  | zero => simp [members] at hv
+  | succ n =>
+    rw [members_step] at hv
+    split at hv
+    · cases hv
+    · split at hv
+      · obtain ⟨m2, hm, hp⟩ := members_isMap _ _ _ _ _ hv
+        simp only [Val.map.injEq] at hm
+        subst hm
+        cases m with
+        | nil => simp [insert, keys] at hp
+        | cons e m' =>
+          obtain ⟨k, v⟩ := e
+          simp only [insert, keys, List.map_cons, List.map_nil] at hp
+          have := (List.cons_prefix_cons.1 hp).1
+          exact ⟨v, m', by rw [this]⟩
+      · simp only [Option.some.injEq, Prod.mk.injEq, Val.map.injEq] at hv
+        exact ⟨_, [], hv.1.symm⟩
+      · cases hv
+
+/-! ### the pinned byte rewrite (a repaired defect, kept as documentation) -/
+
+/-- `bytes.Replace(s, pat, rep, -1)` for non-empty `pat` (`skip` counts the characters of a
+    matched occurrence still to be dropped) -/
+def replaceGo (pat rep : Str) : Str → Nat → Str
+  | [], _ => []
+  | _ :: cs, skip + 1 => replaceGo pat rep cs skip
+  | c :: cs, 0 =>
+      if pat.isPrefixOf (c :: cs) then rep ++ replaceGo pat rep cs (pat.length - 1)
+      else c :: replaceGo pat rep cs 0
+
+def replaceAll (pat rep s : Str) : Str := replaceGo pat rep s 0
+
+/-- the six-character escape sequence backslash, 'u', '0', '0', x, y -/
+def esc00 (x y : Char) : Str := ['\\', 'u', '0', '0', x, y]
+
+/-- the pinned `Map.Json()` without `safeEncoding`: marshal with HTML escaping, then replace the
+    escape sequences of '<', '>', '&' in the encoded BYTES by the literal characters -/
+def rewriteUnsafe (s : Str) : Str :=
+  replaceAll (esc00 '2' '6') ['&'] (replaceAll (esc00 '3' 'e') ['>'] (replaceAll (esc00 '3' 'c') ['<'] s))
+
 end Mxj.Json
